@@ -75,7 +75,7 @@ def kernel_rule(ctx, p, K):
            message="a point may be moved only if (its radius from the centroid > the smallest border radius) and (move factor = nearest-border-point radius / its radius < 1): never outward, interior points untouched; "
                    "all radii measured from the same centroid, the nearest border point found by squared distance in both components")
     # moved point = factor * (p - c) + c : on the ray from the centroid through the point
-    want_v = mf * (E_("grid", k) - S_("border_origin")) + S_("border_origin")
+    want_v = mf * (E_("grid", k) - S_(BO)) + S_(BO)
     v = value_poly(mv.value)
     ctx.ob(rule, f.key + ":on-ray", v == want_v, where=f, node=mv.node, construct=short(v, 260),
            message="the moved point must be factor * (p - c) + c with the same centre c (on its ray from the centroid, at the radius of the nearest border point)")
@@ -168,7 +168,7 @@ def furthest_rule(ctx, p, K):
         if isinstance(cands, Ref) and cands.name.startswith("sub_slim_indexes_for_slim_index_via_mask_2d_from(") and len(cands.idx) == 1:
             border_i = cands.idx[0]
         okf = isinstance(rf.get("grid_2d_slim"), Ref) and rf["grid_2d_slim"].name == grid_ref.name and rf.get("coordinate") == centre and border_i is not None \
-            and any(repr(border_i) == f"{w_}border_slim_indexes_from#{k_}.border_pixels[{sts[0].loops[0].var}]{e_}" for k_ in range(1, 40) for w_, e_ in (("int(", ")"), ("", "")))
+            and __import__("re").fullmatch(r"(int\()?border_slim_indexes_from#\d+\.\w+\[" + __import__("re").escape(sts[0].loops[0].var) + r"\]\)?", repr(border_i)) is not None   # element i of the border list (the array that routine returns, whatever it is called inside)
         # one entry per border pixel: the loop runs over the whole border list
         hi = sts[0].loops[0].hi
         okl = okl and ("total_border_pixels_from(" in repr(hi) or "border_pixels.shape[0]" in repr(hi))
